@@ -10,8 +10,12 @@ PROP = "C01"
 SRS = 0.37
 
 
-def solve_spec(spec, holes=None, **kw):
+def solve_spec(spec, holes=None, rej=False, **kw):
     s = build(spec) if not holes else build_holes(spec, analyse=(holes == "analysed"))
+    if rej:   # a run of refused edits before the analysis: the table must still be that of the tree
+        from ..sysmodel import rejected_edits
+        if rejected_edits(s, spec):
+            return s, None, ("RuntimeError", "a refused edit was accepted (C14/C15 territory): case skipped")
     try:
         df, _ = quiet_call(s.solve, **kw)
     except RuntimeError as e:
@@ -104,7 +108,7 @@ def check_case(case, want=("C01",)):
         return res
     spec = case_spec(case)
     ta = case.get("ta", 25.0)
-    s, df, exc = solve_spec(spec, holes=case.get("holes"), ta=ta)
+    s, df, exc = solve_spec(spec, holes=case.get("holes"), rej=case.get("rej", False), ta=ta)
     res.stats["transitions"] += len(spec["comps"]) + 1
     if exc is not None:
         if exc[0] == "RuntimeError" or "Unstable" in exc[1]:
@@ -183,6 +187,13 @@ def gen_cases(tier, want_mirror=True):
             for f in zero.iter_forests(n):
                 for pol, srs in ((1, 0.0), (-1, 0.0), (1, SRS)):
                     yield dict(fam="zero", f=f, pal=pal, pol=pol, srs=srs, n=n)
+        from ..sysmodel import SIG_NEGTAB
+        negtab = Trees(*SIG_NEGTAB)
+        for n in (1, 2, 3):
+            for f in negtab.iter_forests(n):
+                if "m" in str(f):
+                    for pol in (1, -1):
+                        yield dict(fam="zero", f=f, pal=pal, pol=pol, srs=0.0, n=n)
         # the same structures reached through an edit history (freed / re-used node indices: a child may have a LOWER index than its parent),
         # with and without an analysis in the middle of the history
         for n in (3, 4):
@@ -192,6 +203,10 @@ def gen_cases(tier, want_mirror=True):
         for n in (2, 3, 4):
             for f in deep.iter_forests(n):
                 yield dict(fam="deep", f=f, pal=pal, pol=1, srs=SRS, n=n, tight=True)
+        for fam, T, ns in (("deep", deep, (1, 2, 3)), ("mid", mid, (2,))):   # every documented refusal is provoked before the analysis
+            for n in ns:
+                for f in T.iter_forests(n):
+                    yield dict(fam=fam, f=f, pal=pal, pol=1, srs=SRS, n=n, rej=True, mirror=False)
         for depth in (2, 3, 4, 5, 6):
             for heavy in (0.5, 10.0, 20.0):
                 for micro in (2e-6, 2e-5, 1e-3):
